@@ -146,17 +146,27 @@ var rws = []rw{
 }
 
 func runHandle(f []string) string {
-	kekKind, kekBytes, ad, tapeBytes := f[2], hx.UH(f[3]), hx.UH(f[4]), hx.UH(f[5])
 	ks := parseEntries(atoiU32(f[6]), f[7])
 	h0, err := insecurecleartextkeyset.Read(&keyset.MemReaderWriter{Keyset: ks})
 	if err != nil {
 		return "err|chk=ok"
 	}
+	if strings.HasPrefix(f[1], "prefix5-") {
+		// WITH_ID_REQUIREMENT on a key type whose parser does not know it
+		return handleBattery(f, ks, h0, []string{"a key under OutputPrefixType WITH_ID_REQUIREMENT was accepted for " + ks.Key[0].KeyData.TypeUrl})
+	}
+	return handleBattery(f, ks, h0, nil)
+}
+
+// handleBattery writes h0 (the handle of keyset ks, however it was built) and
+// reads it back through every writer / reader pair, in cleartext, encrypted
+// and public-only form.
+func handleBattery(f []string, ks *tinkpb.Keyset, h0 *keyset.Handle, fails []string) string {
+	kekKind, kekBytes, ad, tapeBytes := f[2], hx.UH(f[3]), hx.UH(f[4]), hx.UH(f[5])
 	fam := ""
 	if len(ks.Key) > 0 {
 		fam = familyOf(ks.Key[0].KeyData.TypeUrl)
 	}
-	fails := []string{}
 	fail := func(s string) { fails = append(fails, s) }
 	var b1, e1, pb1 string = "-", "-", "-"
 
